@@ -1,7 +1,10 @@
 /-
-The `setlocale` protocol of the parser (src/xraylib-parser.c:337-344 in the tree this was written against):
+The `setlocale` protocol of the parser (src/xraylib-parser.c, CompoundParser).  Until /repo commit cc18f9b:
 
-    backup_locale = setlocale(LC_NUMERIC, "C");   …strtod…   setlocale(LC_NUMERIC, backup_locale);
+    backup_locale = setlocale(LC_NUMERIC, "C");   …strtod…   setlocale(LC_NUMERIC, backup_locale);      -- not restoring
+
+since then:  backup_locale = xrl_strdup(setlocale(LC_NUMERIC, NULL)); setlocale(LC_NUMERIC, "C"); … ; setlocale(LC_NUMERIC,
+backup_locale); free(backup_locale);                                                                  -- restoring
 
 The sequence of setlocale calls of every function is EXTRACTED from the AST on every run
 (`Gen.localeProtocols`); this file gives it a meaning (POSIX/glibc: `setlocale(cat, NULL)` returns the current
